@@ -73,8 +73,12 @@ def classify_death(rc, stdout, stderr):
         else:
             kind = "fatal:" + re.sub(r"[0-9]+", "N", line)[:50].replace(" ", "_")
         # innermost /repo frame
-        fm = re.search(r"^wa-lang\.org/wa/((?!internal/zz_verif)\S+?)\(", txt, re.M)
-        return kind, (fm.group(1) if fm else "?")
+        site = "?"
+        for fm in re.finditer(r"^wa-lang\.org/wa/(\S+)\(", txt, re.M):
+            if "zz_verif" not in fm.group(1):
+                site = fm.group(1)          # innermost /repo frame of the dying goroutine
+                break
+        return kind, site
     if rc is not None and rc < 0:
         return "signal:%d" % (-rc), "?"
     # os.Exit path: logger.Fatal prints "file:line: msg" on stdout
@@ -651,8 +655,9 @@ class Gen:
         self.inputs = {}          # id -> dict(stream, lang, name, spec, size, eps, desc)
         self.order = []
 
-    def add(self, stream, lang, name, spec, size, eps, desc):
-        eps = [e for e in eps if e not in self.skip]
+    def add(self, stream, lang, name, spec, size, eps, desc, force=False):
+        if not force:
+            eps = [e for e in eps if e not in self.skip]
         if not eps:
             return
         i = "%s%d" % (stream, len(self.order))
@@ -733,6 +738,21 @@ class Gen:
         for ncls, name in NAME_CLASSES:
             for ccls, content in CONTENT_CLASSES:
                 self.add("name", "wa", name, hexs(content), len(content), ["syntax", "format"], "name class %s, content class %s" % (ncls, ccls))
+
+    def stream_extreme(self, sizes):
+        """the recursion-depth probes asked for explicitly: 10^5 (thorough: 5*10^6) nested brackets / unary operators /
+        blocks, through the scanners and parsers only"""
+        fams = {"wa": ["paren", "paren_open", "neg", "not", "star", "index_open", "call", "block", "brace_open", "slicetype"],
+                "wz": ["paren", "paren_open", "neg", "not", "index", "call", "if_open", "block"],
+                "wat": ["paren", "paren_open", "block", "block_open", "folded", "modules"],
+                "asm": ["paren", "paren_open", "minus"]}
+        parse_eps = {"wa": ["syntax", "parsewa"], "wz": ["syntax", "parsewz"], "wat": ["syntax", "wat"],
+                     "asm": ["syntax", "nasm_la", "nasm_rv", "nasm_x64", "nasm_arm"]}
+        for lang, fs in fams.items():
+            for fam in fs:
+                for D in sizes:
+                    d = deep_family(lang, fam, D)
+                    self.add("extreme", lang, OWN_NAME[lang], hexs(d), len(d), parse_eps[lang], "family %s/%s size %d" % (lang, fam, D))
 
     def stream_deep(self, sizes, load_max):
         for lang in ("wa", "wz", "wat", "asm"):
@@ -1001,9 +1021,26 @@ def dispatch_correspondence(ctx, h, model, pairs, cfg):
 
 # ------------------------------------------------------------------------------------------------ the check
 
-STAGE = {"syntax": "scan", "parsewa": "parse", "parsewz": "parse", "checkwa": "check", "checkwz": "check", "format": "format",
-         "loadwa": "load", "loadwz": "load"}
-HANG_MAX_SIZE = 16384      # a time-out on an input up to this size is keyed "hang", above it "slow" (super-linear)
+# a time-out is keyed by the size class of the input: "hang" (<= 1 KiB: an endless loop or exponential behaviour),
+# "blowup" (<= 64 KiB: at least 30 us per byte) or "slow" (larger: super-linear on big inputs), and by the stage
+def stage_of(ep, site_pkg):
+    """the pipeline stage a time-out is attributed to (coarse on purpose: the sampled site of a slow computation
+    is noisy, and one quadratic loop shows up under many entry points)"""
+    if ep == "syntax":
+        return "detectlang"
+    if ep == "parsewa":
+        return "wa-parser"
+    if ep == "parsewz":
+        return "wz-parser"
+    if ep in ("checkwa", "checkwz", "loadwa", "loadwz"):
+        return "ssa-builder" if site_pkg.startswith("internal/ssa") else "type-checker"
+    if ep == "format":
+        return "printer"
+    if ep == "wat":
+        return "wat-parser"
+    if ep.startswith("nasm_"):
+        return "nasm-parser-" + ep[5:]
+    return ep
 
 
 def timeout_key(rec, size):
@@ -1011,8 +1048,8 @@ def timeout_key(rec, size):
     d = detail.split()
     if d and d[0] in ("synok", "synerr"):
         d = d[1:]
-    cls = "hang" if size <= HANG_MAX_SIZE else "slow"
-    return "%s:%s:%s" % (cls, ep, pkg_of(d[0] if d else "?"))
+    cls = "hang" if size <= 1024 else ("blowup" if size <= 65536 else "slow")
+    return "%s:%s" % (cls, stage_of(ep, pkg_of(d[0] if d else "?")))
 
 
 def record_key(rec, size):
@@ -1020,22 +1057,28 @@ def record_key(rec, size):
 
 
 def fold_timeouts(recs):
-    """a time-out of a later stage on an input on which an earlier stage (scan < parse < check/format/load)
-    already timed out has the same cause: keep only the earliest stage's record per input"""
-    by_input = {}
+    """a time-out of a later stage (type check, format, load) on an input whose parse already timed out — or used
+    more than half of its limit — has the same cause: keep only the parse stage's record for that input"""
+    parse_heavy = set()
+    for r in recs:
+        if r[1] in ("parsewa", "parsewz", "syntax") and (r[2] == "timeout" or (r[4] and r[3] * 2 >= r[4])):
+            parse_heavy.add((r[0], r[1]))
+    syntax_timeouts = {r[0] for r in recs if r[1] == "syntax" and r[2] == "timeout"}
+    own_parse = {"checkwa": "parsewa", "loadwa": "parsewa", "checkwz": "parsewz", "loadwz": "parsewz"}
+    out, dropped = [], 0
     for r in recs:
         if r[2] == "timeout":
-            by_input.setdefault(r[0], []).append(r)
-    drop = set()
-    order = {"scan": 0, "parse": 1, "check": 2, "format": 2, "load": 2}
-    for i, rs in by_input.items():
-        st = [order.get(STAGE.get(r[1], ""), 9) for r in rs]
-        m = min(st)
-        if m < 2:
-            for r, s in zip(rs, st):
-                if s > m and s != 9:
-                    drop.add((r[0], r[1]))
-    return [r for r in recs if not (r[2] == "timeout" and (r[0], r[1]) in drop)], len(drop)
+            if r[1] in own_parse and ((r[0], own_parse[r[1]]) in parse_heavy or (r[0], "syntax") in parse_heavy):
+                dropped += 1
+                continue
+            if r[1] == "format" and any((r[0], e) in parse_heavy for e in ("parsewa", "parsewz", "syntax")):
+                dropped += 1
+                continue
+            if r[1] in ("parsewa", "parsewz") and r[0] in syntax_timeouts:
+                dropped += 1
+                continue
+        out.append(r)
+    return out, dropped
 
 
 def load_corpus():
@@ -1087,9 +1130,11 @@ def run(ctx):
     # ---- 1. corpus (minimised past failures), replayed first
     corpus = load_corpus()
     for c in corpus:
+        if c.get("tier") == "thorough" and quick:
+            continue
         data = corpus_content(c)
         gen.add("corpus", c.get("lang", "wa"), bytes.fromhex(c.get("name_hex", "")) if c.get("name_hex", "-") != "-" else b"",
-                hexs(data), len(data), c["eps"], "corpus/%s (%s)" % (c["file"], c.get("key", "")))
+                hexs(data), len(data), c["eps"], "corpus/%s (%s)" % (c["file"], c.get("key", "")), force=True)
     # the Lean witnesses (dispatch_witness_pinned, dispatch_witness_pinned_empty) replayed on the real code
     gen.add("witness", "wa", b"x.txt", hexs(b"1"), 1, ["syntax", "format"], "witness FormatCode(\"x.txt\", \"1\")")
     gen.add("witness", "wa", b"x", "-", 0, ["syntax", "format"], "witness FormatCode(\"x\", \"\")")
@@ -1101,6 +1146,7 @@ def run(ctx):
         gen.stream_byte_mut(1400, 0.06)
         gen.stream_trunc(3, 0.03)
         gen.stream_deep([500, 2000], load_max=500)
+        gen.stream_extreme([100000])
     else:
         gen.stream_seeds(load_every=1)
         gen.stream_names()
@@ -1108,6 +1154,7 @@ def run(ctx):
         gen.stream_byte_mut(25000, 0.05)
         gen.stream_trunc(None, 0.004)
         gen.stream_deep([500, 2000, 10000, 100000], load_max=2000)
+        gen.stream_extreme([100000, 5000000])
     ids = [i for i in gen.order if i not in set(probe_ids)]
     t1 = time.time()
     recs += explore(ctx, h, gen, ids, "x")
@@ -1185,7 +1232,7 @@ def run(ctx):
                 r_ep = info["example"]["ep"]
                 inp = gen.inputs[info["example"]["id"]]
                 if small is None:
-                    if key.startswith(("hang:", "slow:")):
+                    if key.startswith(("hang:", "blowup:", "slow:")):
                         ctx.notes.append("unconfirmed time-out (not reproduced when run alone, not reported): %s on %s" % (key, info["example"]["desc"]))
                         info["unconfirmed"] = True
                         continue
@@ -1203,7 +1250,7 @@ def run(ctx):
     fam = {}
     for r in recs:
         inp = gen.inputs[r[0]]
-        if inp["stream"] == "deep" and r[2] in ("ok", "err"):
+        if inp["stream"] in ("deep", "extreme") and r[2] in ("ok", "err"):
             m = re.match(r"family (\S+) size (\d+)", inp["desc"])
             fam.setdefault((m.group(1), r[1]), {})[int(m.group(2))] = r[3]
     import math
